@@ -973,9 +973,11 @@ class GraphProcessor:
         else:
             raise RuntimeError('Either combination idx or graph instance is needed!')
 
+        # The returned instance should be independent from the (cached) graphs it was derived from
+        if graph_instance is not None:
+            graph_instance = graph_instance.copy()
+
         if np.any(dv_node_existence):
-            if graph_instance is not None:
-                graph_instance = graph_instance.copy()
             for i_dv, des_var_node in enumerate(self.design_variable_nodes):
                 if not dv_node_existence[i_dv]:
                     continue
